@@ -100,7 +100,7 @@ def main(argv: list[str] | None = None) -> int:
             known_hits[f["id"]] = known_hits.get(f["id"], 0) + len(vs)
             continue
         # reproduce once from fresh inputs before reporting
-        if getattr(mod, "REPRODUCE", True):
+        if getattr(mod, "REPRODUCE", True) and not v["case"].get("no_reproduce"):
             rr = engine.ShardResult()
             try:
                 mod.run_shard(v["case"]["shard"], ctx, rr, v["case"].get("inner"))
